@@ -23,6 +23,7 @@ import (
 	"strings"
 	"sync"
 	"sync/atomic"
+	"unsafe"
 	"testing"
 )
 
@@ -904,4 +905,16 @@ func (s *ShortReader) Read(p []byte) (int, error) {
 		k = len(p)
 	}
 	return io.ReadFull(s.R, p[:k])
+}
+
+// SharesMemory reports whether the backing arrays of a and b - up to their
+// CAPACITY, not just their length - have a byte in common: two values a call
+// hands out must not, or appending to one overwrites the other.
+func SharesMemory(a, b []byte) bool {
+	if cap(a) == 0 || cap(b) == 0 {
+		return false
+	}
+	a, b = a[:cap(a)], b[:cap(b)]
+	pa, pb := uintptr(unsafe.Pointer(unsafe.SliceData(a))), uintptr(unsafe.Pointer(unsafe.SliceData(b)))
+	return pa < pb+uintptr(len(b)) && pb < pa+uintptr(len(a))
 }
